@@ -374,6 +374,14 @@ def replay_linear(chk, rs, c, variants):
         if np.max(np.abs((p1 - p0) - c1)) > TOL[prec] * sc:
             _viol(chk, rs, c, "background", "background %s does not shift the concentration uniformly (max dev %.3e)" % (c1, np.max(np.abs((p1 - p0) - c1))), **extra)
             return
+        # a whole-number background written as an INTEGER (srf_bg_conc=400): the same offset as 400.0, at every level
+        for cint in (3, -2):
+            _, pi_, fi_ = rs.solve3(q1, kw, srf_bg_conc=int(cint))
+            sci = max(float(np.max(np.abs(pi_))), float(np.max(np.abs(p0))), abs(cint))
+            if np.shape(pi_) != np.shape(p0) or float(np.max(np.abs((pi_ - p0) - cint))) > TOL[prec] * sci or not np.array_equal(fi_, f0):
+                lev = [float(np.max(np.abs((pi_[k] - p0[k]) - cint))) for k in range(min(len(pi_), len(p0)))]
+                _viol(chk, rs, c, "background", "the integer background %d does not shift the concentration by %d at every level (per-level deviation %s)" % (cint, cint, lev), **extra)
+                return
 
 
 # ------------------------------------------------------------------- C06 translation
